@@ -39,6 +39,10 @@ def call_on_var(method, var=None, prefix=False):
 def evalstring_empty(var):
     """atom is EvalString::empty() (inlined) on the local with exactly this name."""
     def p(a):
+        sa = strip(a)
+        if isinstance(sa, dict) and sa.get('k') == 'call' and sa.get('name') == 'EvalString::empty' and \
+                isinstance(strip(sa.get('recv')), dict) and strip(sa['recv']).get('k') == 'var' and strip(sa['recv'])['n'] == var:
+            return True         # as written
         return any(x.get('k') == 'mem' and x['n'] == 'EvalString::parsed_' and
                    isinstance(strip(x.get('b')), dict) and strip(x['b']).get('k') == 'var' and
                    strip(x['b'])['n'] == var for x in walk(a))
